@@ -10,6 +10,7 @@ SpVecGF2 is its 64-coordinate view (operators inlined as their contracts K1-K3).
 import re
 from lib import xtract as X
 from lib.core import Undecided
+from units.canon import MAINLOOP
 
 PRE = r"""
 #include <stddef.h>
@@ -76,7 +77,7 @@ COMMON_RULES = [
 def _signed(maxc):
     log = []
     rel = "include/parmcb/parmcb_sva_signed.hpp"
-    text = X.src(rel)
+    text = X.canon(X.src(rel), MAINLOOP, log)
     init = X.stmt_after(text, r"std::vector<SpVecGF2<std::size_t>> support;", r"\bfor\s*\(", "support initialisation (signed)")
     main = X.stmt_after(text, r"WeightType mcb_weight = WeightType\(\);", r"\bfor\s*\(", "main loop (signed)")
     main = X.rewrite(main, [
@@ -104,14 +105,14 @@ def _signed(maxc):
 def _trees(maxc):
     log = []
     rel = "include/parmcb/parmcb_sva_trees.hpp"
-    text = X.src(rel)
+    text = X.canon(X.src(rel), MAINLOOP, log)
     init = X.stmt_after(text, r"std::vector<SpVecGF2<std::size_t>> support;", r"\bfor\s*\(", "support initialisation (trees)")
     main = X.stmt_after(text, r"WeightType mcb_weight = WeightType\(\);", r"\bfor\s*\(", "main loop (trees)")
-    main = X.strip_logging(main, log)
+    main = X.inline_temps(X.strip_logging(main, log), log)
     main = X.rewrite(main, [
         (r"std::set<Edge> signed_edges;\s*convert_edges\(support\[k\], std::inserter\(signed_edges, signed_edges\.end\(\)\), forest_index\);", "", 1,
          "drop", "witness as edge set (K15)"),
-        (r"std::tuple<std::set<Edge>, WeightType, bool> best = cycle_lookup\(signed_edges\);", "cycle_t best = phase(k);", 1, "block-abstraction",
+        (r"(?:const )?std::tuple<std::set<Edge>, WeightType, bool> best = cycle_lookup\(signed_edges\);", "cycle_t best = phase(k);", 1, "block-abstraction",
          "ShortestOddCycleLookup (K11 units) -> its contract"),
     ], log)
     body = X.rewrite(init + "\n" + main, COMMON_RULES, log)
@@ -131,7 +132,7 @@ def _signed_tbb(maxc):
     task over the whole range is used here, the per-task frame/functional contract is K5)."""
     log = []
     rel = "include/parmcb/parmcb_sva_signed_tbb.hpp"
-    text = X.src(rel)
+    text = X.canon(X.src(rel), MAINLOOP, log)
     i0 = text.index("mcb_sva_signed_tbb(const Graph &g, WeightMap weight_map")
     text = text[i0:]
     init = X.stmt_after(text, r"tbb::concurrent_vector<SpVecGF2<std::size_t>> support;", r"tbb::parallel_for\s*\(", "concurrent support initialisation")
